@@ -150,10 +150,15 @@ def coq_make(targets, jobs=NCPU, timeout=3000):
 FORBIDDEN = re.compile(r"\b(Admitted|admit|Axiom|Parameter|Conjecture|bypass_check|type-in-type|impredicative-set)\b|Unset Guard|Unset Positivity|Unset Universe|Admit Obligations")
 
 
-def grep_gate():
+def grep_gate(only=None):
+    """forbidden constructs; `only` = iterable of files relative to coq/ (a property's cone); default: the whole development"""
     bad = []
-    for d in ("lib", "model", "proofs", "props", "extract", "gen"):
-        for p in glob.glob(os.path.join(COQ, d, "*.v")):
+    files = [os.path.join(COQ, f) for f in only] if only is not None else \
+        [p for d in ("lib", "model", "proofs", "props", "extract", "gen") for p in glob.glob(os.path.join(COQ, d, "*.v"))]
+    for d in (None,):
+        for p in files:
+            if not os.path.exists(p):
+                continue
             txt = re.sub(r"\(\*.*?\*\)", "", open(p).read(), flags=re.S)
             for m in FORBIDDEN.finditer(txt):
                 bad.append("%s: %s" % (os.path.relpath(p, VERIF), m.group(0)))
